@@ -341,7 +341,11 @@ func genProgram(r *rand.Rand) *program {
 			case "b":
 				s.maxLines = recvMax
 			case "keep":
-				s.maxV, s.maxLines = prev.maxV, prev.maxLines
+				// "keep" follows the band letter of the id, i.e. the band the last
+				// INSTRUMENTED sender used; after a band-changing builtin (all,
+				// to-lines, from-lines) that is not the arrival band, so either
+				// band may carry everything
+				s.maxV, s.maxLines = recvMax, recvMax
 			}
 			s.maxLen = ilen + s.FPad + 1
 			s.maxBytes = s.maxLines * (s.maxLen + 1)
@@ -853,7 +857,7 @@ func runOnce(c *mon.Case, p *program, code string) bool {
 	}
 	var res elv.Result
 	baseline := sched.Baseline()
-	out := sched.Run(func() { res = elv.Eval(ev, code) }, baseline, 3*time.Second, 90*time.Second)
+	out := sched.RunP(func() { res = elv.Eval(ev, code) }, baseline, 3*time.Second, 90*time.Second, rec.N)
 	wit := map[string]any{"program": code, "model": p}
 	if out.Deadlock != nil {
 		c.Violation("deadlock:"+out.Deadlock.Sig(), "the pipeline can never finish: every goroutine of the evaluation is blocked ("+out.Deadlock.Sig()+")",
@@ -1077,10 +1081,10 @@ func Spec() *mon.Spec {
 			"a program-level deadlock is not a violation and is not generated: a reader that waits for the end of ONE band while never reading the other (from-lines, read-line loops, value-only readers) is only placed after a stage that can write at most 24 values / 16 KB to the unread band",
 			"the relative order of the value band and the byte band is not constrained (each merges them); only the per-band order is",
 			"for byte lines only delivery order/exactly-once is checked, not that a failed write delivered nothing (a large write may be partially delivered)",
-			"a deadlock verdict is taken inside the case when the evaluation has not returned and every goroutine in pkg/eval code is blocked on a channel/semaphore/pipe in two identical censuses one second apart (the programs contain no timers)",
+			"a deadlock verdict is taken inside the case when the evaluation has not returned and every goroutine in pkg/eval code is blocked on a channel/semaphore/pipe in four consecutive censuses one second apart with identical stacks and no new harness event in between (the programs contain no timers)",
 		},
 		Phases: []mon.Phase{
-			{Name: "pipelines", Quick: 240, Thorough: 24000, Run: runPipeline, GoMaxProcs: 16, Timeout: 150 * time.Second},
+			{Name: "pipelines", Quick: 240, Thorough: 3000, Run: runPipeline, GoMaxProcs: 16, Timeout: 150 * time.Second},
 		},
 		HangViolation: true,
 		Floors: map[string]int{"stages_writing_lines_over_4k": 5, "distinct_nontrivial": 60, "complete_reads": 100, "early_exit_readers": 80, "early_exits_noticed_by_writer": 30,
